@@ -20,6 +20,7 @@ type stmt struct {
 	typ      string
 	key      string
 	children []*stmt
+	refines  string  // refine statements of a uses (text)
 	uses     string  // grouping name (possibly prefixed) for kind uses
 	augment  []*stmt // uses-augment children appended to the first container of the grouping
 	augTo    string
@@ -35,9 +36,10 @@ type grouping struct {
 type Set struct {
 	Main   string              `json:"main"`
 	Files  map[string]string   `json:"files"`
-	Expect map[string][]string `json:"expect"` // parent path -> ordered data-definition idents
-	Cases  map[string][]string `json:"cases"`  // choice path -> ordered case idents
-	Lists  map[string][]string `json:"lists"`  // "<kind>:<ident>" -> members in textual order (enum, bits, union, pattern, must, ext, iffeature, unique, key, default, idbase, rev)
+	Expect map[string][]string `json:"expect"`          // parent path -> ordered data-definition idents
+	Cases  map[string][]string `json:"cases"`           // choice path -> ordered case idents
+	Feats  []string            `json:"feats,omitempty"` // features the main module declares
+	Lists  map[string][]string `json:"lists"`           // "<kind>:<ident>" -> members in textual order (enum, bits, union, pattern, must, ext, iffeature, unique, key, default, idbase, rev)
 	Stmts  int                 `json:"stmts"`
 }
 
@@ -320,7 +322,9 @@ func emit(b *strings.Builder, d int, ss []*stmt) {
 		case "anydata":
 			fmt.Fprintf(b, "%sanydata %s;\n", ind, s.name)
 		case "uses":
-			if len(s.augment) == 0 {
+			if len(s.augment) == 0 && s.refines != "" {
+				fmt.Fprintf(b, "%suses %s { %s }\n", ind, s.uses, s.refines)
+			} else if len(s.augment) == 0 {
 				fmt.Fprintf(b, "%suses %s;\n", ind, s.uses)
 			} else {
 				fmt.Fprintf(b, "%suses %s {\n%s  augment \"%s\" {\n", ind, s.uses, ind, s.augTo)
@@ -551,7 +555,8 @@ func generate(r *kit.Rng, maxStmts int) *Set {
 		}
 		fmt.Fprintf(&mb, "  include s%d;\n", i)
 	}
-	mb.WriteString("  organization \"o\"; contact \"c\"; description \"main\";\n  revision 2024-02-02;\n  revision 2023-01-01;\n")
+	// (carriage returns inside quoted arguments: the text is the text, whichever way it is handed to the loader)
+	mb.WriteString("  organization \"o\r\nsecond line\"; contact \"c\rd\"; description \"main\";\n  revision 2024-02-02;\n  revision 2023-01-01;\n")
 	// local typedefs, identities, features
 	lt := g.id("t")
 	fmt.Fprintf(&mb, "  typedef %s { type %s; }\n", lt, g.tdefs[r.Intn(len(g.tdefs))])
@@ -594,7 +599,25 @@ func generate(r *kit.Rng, maxStmts int) *Set {
 		for i := 0; i < 2; i++ {
 			g.n++
 			c := &stmt{kind: "container", name: g.id("c")}
-			c.children = []*stmt{g.leaf(), {kind: "uses", uses: ref}, g.leaf()}
+			u := &stmt{kind: "uses", uses: ref}
+			// several refines of one uses, one of them guarded by a feature: with that
+			// feature off the others must still be applied, the same ones on every load
+			var leaves []string
+			for _, b := range g.grps[ref].body {
+				if b.kind == "leaf" && !strings.Contains(b.typ, "{") {
+					leaves = append(leaves, b.name)
+				}
+			}
+			if len(leaves) >= 2 && len(g.feats) > 0 {
+				for li, ln := range leaves {
+					guard := ""
+					if li == i%len(leaves) {
+						guard = "if-feature " + g.feats[len(g.feats)-1] + "; "
+					}
+					u.refines += fmt.Sprintf("refine %s { %sdescription \"refined %d\"; } ", ln, guard, li)
+				}
+			}
+			c.children = []*stmt{g.leaf(), u, g.leaf()}
 			top = append(top, c)
 		}
 	}
@@ -775,6 +798,7 @@ func generate(r *kit.Rng, maxStmts int) *Set {
 		record(set, x.name, g.expand(x.body))
 	}
 	set.Stmts = g.n
+	set.Feats = g.feats
 	set.Lists = g.facts
 	return set
 }
